@@ -108,7 +108,14 @@ where
         should_continue: impl std::ops::Fn() -> bool + Clone,
     ) -> V {
         debug!("solve_root_goal(canonical_goal={:?})", canonical_goal);
-        assert!(self.stack.is_empty());
+        if !self.stack.is_empty() {
+            // A panic in a database callback abandoned an earlier solve half
+            // way, leaving its goals on the stack and their provisional
+            // results in the search graph. Discard these leftovers (finished
+            // results live in the cache and stay valid).
+            self.stack.clear();
+            self.search_graph.rollback_to(DepthFirstNumber::MIN);
+        }
         let minimums = &mut Minimums::new();
         self.solve_goal(canonical_goal, minimums, solver_stuff, should_continue)
     }
